@@ -87,7 +87,7 @@ func genRouting(p proto, t *simrt.Tape, tier string) *ccCfg {
 		cfg.readErrAt = time.Duration(t.Choose(int(cfg.span/time.Millisecond)+1)) * time.Millisecond
 	}
 	cfg.replyCount = []int{2, 4, 3, 2, 1}
-	cfg.kindWeights = []int{5, 4, 3, 1, 1, 1, 1, 1}
+	cfg.kindWeights = []int{5, 4, 3, 1, 1, 1, 1, 1, 1}
 	cfg.delays = []time.Duration{0, ms(1), ms(2), T / 2, T - ms(1), T, T + ms(1), 2 * T, 3 * T}
 	cfg.dupNum = swarmRate(t, 5, 30)
 	cfg.corruptNum = swarmRate(t, 3, 20)
@@ -163,7 +163,7 @@ func genLiveness(p proto, t *simrt.Tape, tier string) *ccCfg {
 		cfg.readErrAt = instant()
 	}
 	cfg.delays = []time.Duration{0, ms(1), T / 2, T - ms(1), T, T + ms(1), 2 * T, 3 * T, 3*T + ms(1), 7 * T}
-	cfg.kindWeights = []int{4, 5, 2, 1, 1, 1, 1, 1}
+	cfg.kindWeights = []int{4, 5, 2, 1, 1, 1, 1, 1, 1}
 	switch t.Weighted(2, 3, 3, 2) {
 	case 0: // silence
 		cfg.replyCount = []int{1}
